@@ -115,4 +115,6 @@ def spec(fmt, mn, mx, st, v):
             out.update(kind="grid", off=off, step=st, klo=klo, khi=khi, tol=tol)
     if mn is not None and mx is not None and mn <= mx and ((mx - mn) / st).denominator == 1:
         out.update(lo=mn, hi=mx)
+        # six-digit bounds are barriers for round-to-nearest: then membership is strict even on the rounded path
+        out["strict"] = st > 0 and all((sd := sigdigits(x)) is not None and sd <= 6 for x in (mn, mx, mx - mn, (mx - mn) / st))
     return out
